@@ -11,21 +11,22 @@ def reg(pid, text, note, technique, design_ref, category="exploration"):
 
 reg("C17",
     "Exhaustive enumeration of all codes 0..65535 (plus boundary and Hypothesis-drawn 32-bit values) through the integer "
-    "predicates and through the answer-object predicates on real DiameterAnswer objects, against integer-division oracle "
-    "n//1000; complete for the 16-bit range, sampled beyond.",
+    "predicates and through the answer-object predicates on real DiameterAnswer objects (header E bit clear and set), against the "
+    "integer-division oracle n//1000; complete for the 16-bit range, sampled beyond; plus generated histories on one answer object "
+    "whose Result-Code is changed in place between looks.",
     "Trusted: Python integer arithmetic; ResultCodeAVP construction for the answer-object form. Multiples of 1000 and answers "
     "without Result-Code are outside the statement (counted, not judged).",
     "exhaustive enumeration + property-based sampling against an arithmetic oracle", "DESIGN.md#c17")
 reg("C18",
     "Exhaustive enumeration of every digit string up to length 5 (quick) / 7 (thorough) plus Hypothesis-generated strings, "
-    "ints and MSISDN/STN-SR AVPs up to 20 digits, against an independent nibble-swap reference encoder and the round-trip law.",
+    "structured long strings (length 6..24/40 x every two-digit prefix x suffix/filler classes), ints and MSISDN/STN-SR AVPs up to 20 digits, against an independent nibble-swap reference encoder and the round-trip law.",
     "Trusted: the 12-line reference encoder ref_tbcd; digit strings only (no TBCD special characters).",
     "exhaustive enumeration + property-based round-trip/differential testing", "DESIGN.md#c18")
 
 reg("C01",
     "Property-based differential test: generated logical content (all header field widths; every dictionary class swept with "
     "in-domain values over all four length residues; generic AVPs; Grouped nesting to depth 4; five ways of adding AVPs; all 50 "
-    "typed command classes) is serialised by bromelia and by an independent struct-based RFC 6733 encoder; byte strings, "
+    "typed command classes; the process time zone as a case dimension) is serialised by bromelia and by an independent struct-based RFC 6733 encoder; byte strings, "
     "per-AVP encodings and Message Length must agree exactly.",
     "Trusted: vf/refcodec.py (40 lines), ref/avp_dictionary.json (code/vendor/default flags per class), the per-type value table in "
     "vf/gens.py. Sampled, not exhaustive; constructions the library refuses are discards. Grouped-from-bytes members colliding with "
@@ -35,13 +36,14 @@ reg("C02",
     "Property-based round-trip/differential test: well-formed streams are produced by the reference encoder from generated wire "
     "forests (any flag byte, known/unknown pairs, nested Grouped, 1-4 messages); every decoded field is compared with the generated "
     "value and the re-encoding with the original bytes. Plus a concurrent part: two generated streams decoded by two controlled "
-    "threads with directed delays between source lines of the shared class-registry code; each must decode as it does alone.",
+    "threads with directed delays between source lines of the shared class-registry code; each must decode as it does alone. "
+    "Plus registry histories: decode / print / define-a-dictionary-class sequences over (vendor, code) pairs no shipped class uses.",
     "Trusted: reference encoder and dictionary. One root cause is a listed known finding (decode re-flags known AVPs); its "
     "signatures are exact so any other flag/data deviation is still reported.",
     "property-based round-trip testing with generator-side expected values (Hypothesis)", "DESIGN.md#c02")
 reg("C09",
     "Property-based test over all 50 typed command classes x generated argument subsets (optionals, untabled AVP objects, extra "
-    "keyword AVPs, omitted mandatory argument) against a reference command table (code/Application-ID/R from the specs) and the "
+    "keyword AVPs, omitted mandatory argument; for requests also a random source that first repeats identifiers already in use) against a reference command table (code/Application-ID/R from the specs) and the "
     "reference encoder, plus serialise/decode round trip.",
     "Trusted: ref/commands.json (wire identity hand-written from the specs and cross-checked; argument tables snapshotted from the "
     "pinned tree), reference dictionary/encoder.",
@@ -51,13 +53,13 @@ reg("C10",
     "Exhaustive table checks (uniqueness of (vendor, code) over every DiameterAVP subclass; every class against the vendored "
     "dictionary, docs/list-of-avps.md and definitions.py) plus, for every class, an exhaustive table of out-of-domain value kinds "
     "per data type (wrong widths 0..12, wrong Python types, non-members, wrong address family/width, non-aaa URIs, missing "
-    "mandatory members, garbage bytes) and Hypothesis-generated in-domain values whose encoding is read back with the reference decoder.",
+    "mandatory members, garbage bytes, timezone-aware datetimes: refused or encoded as their instant) and Hypothesis-generated in-domain values whose encoding is read back with the reference decoder.",
     "Trusted: ref/avp_dictionary.json (fixed snapshot audited against docs and definitions.py), the domain table bad_values() in "
     "vf/checks/c10.py. Not judged: ints/bools for Address, Address families other than 1/2, URI port/transport grammar.",
     "exhaustive table comparison + property-based domain/boundary testing", "DESIGN.md#c10")
 reg("C20",
     "Exhaustive enumeration of (boundary word set x 32 indices x test/set/unset) on two Unsigned32 classes plus Hypothesis-generated "
-    "random words, out-of-range indices, IPv4/IPv6 literals by structure and datetimes 1900..2036, against integer arithmetic, "
+    "random words, out-of-range indices, IPv4/IPv6 literals by structure and datetimes 1900..2036 (built under 7 process time zones), against integer arithmetic, "
     "socket.inet_pton and ordinal-day arithmetic.",
     "Trusted: Python int arithmetic, socket.inet_pton, datetime.toordinal. Naive datetimes, literals without scope id.",
     "exhaustive enumeration + property-based testing against arithmetic oracles", "DESIGN.md#c20")
@@ -91,21 +93,23 @@ reg("C13",
     "per application object (registered and unregistered pairs, built and decoded) and handler outcomes (answer, None, wrong types, "
     "exceptions with 0/1/2 arguments) on a real Bromelia object with in-process Workers; handler invocations are logged and every "
     "worker's send queue is read with the reference decoder. Plus concurrent dispatch under the controlled scheduler: 2-3 requests "
-    "through the real create_message_thread with gated handlers.",
+    "through the real create_message_thread with gated handlers; and a poll part: requests left on the receive queues of 2-3 "
+    "connections are taken with the real get_incoming_message() and dispatched.",
     "Trusted: reference decoder; the fake manager (thread primitives instead of multiprocessing proxies; the lock never blocks so a "
     "second send is observable instead of deadlocking).",
     "property-based testing of dispatch against a logging harness (Hypothesis)", "DESIGN.md#c13")
 reg("C15",
     "Property-based test with a harness-owned random source: bromelia.base.os.urandom is replaced by a generated low-entropy sequence "
     "(1-3 distinct values, adversarial repeats) followed by fresh values; creation histories mix generic/typed header-less requests, "
-    "explicit-header requests, answers and generic messages; identifiers must be pairwise distinct and explicit-header objects must "
+    "explicit-header requests, answers, generic messages and connection close events; identifiers must be pairwise distinct and explicit-header objects must "
     "consume nothing.",
     "Trusted: the substituted source and, for the concurrent clause, the controlled scheduler (2-3 creator threads, source-line "
     "preemption inside bromelia/base.py, sampled schedules; real locks found on DiameterRequest are replaced by scheduler-aware ones).",
     "property-based testing with an adversarial random source + controlled-scheduler race testing", "DESIGN.md#c15")
 reg("C16",
     "Model-based history test under a virtual clock: generated histories of Session-Id generation (AVP from identity, typed message, "
-    "Acct-Multi-Session-Id, bulk origin updates that switch identity, bytes input) with 0/1/1000 s ticks, many ids per clock second; "
+    "Acct-Multi-Session-Id, bulk origin updates that switch identity, bytes input, foreign Session-Ids that are then bulk-updated, "
+    "bulk updates carrying both an origin and a bytes id) with 0/1/1000 s ticks, many ids per clock second; "
     "all ids must be pairwise distinct and match identity;high32;low32[;optional].",
     "Trusted: the substituted datetime module in bromelia._internal_utils; SessionHandler.reset() at history start models process start.",
     "stateful property-based testing with a virtual clock (Hypothesis)", "DESIGN.md#c16")
@@ -148,7 +152,7 @@ reg("C08",
 
 reg("C06",
     WORLD + "Model-based testing: generated event sequences (connect ack/nack, valid and four kinds of invalid CER/CEA, DWR, DWA, DPR, "
-    "DPA, application and misaddressed messages, local stop, FIN/RST, idle, restart; both roles; 0-2 applications) are applied to the "
+    "DPA, T-flagged re-transmissions, application and misaddressed messages, local stop, FIN/RST, idle, restart; both roles; 0-2 applications) are applied to the "
     "real node; after every event the reported state, the reference-decoded base-protocol output, deliveries, the state-machine "
     "thread and (when Closed) the transport are compared with a nondeterministic reference transition model written from RFC 6733 "
     "5.6 and the statement.",
@@ -158,8 +162,9 @@ reg("C06",
     "model-based testing against a reference transition model (generated event histories + bounded exhaustive enumeration)", "DESIGN.md#c06")
 reg("C07",
     WORLD + "History testing with the C06 machinery biased to base requests (boundary identifier values, two requests in one segment, "
-    "outbound backlog across the batch limit, reconnects on the same object); every CEA/DWA/DPA written is reference-decoded and "
-    "matched positionally with the answered requests (command, R clear, both identifiers, local origin, Result-Code).",
+    "outbound backlog across the batch limit, reconnects on the same object, T-flagged re-transmissions repeating an End-to-End id); "
+    "every CEA/DWA/DPA written is reference-decoded and aligned with the requests in arrival order (command, R clear, both "
+    "identifiers, local origin, Result-Code); answering a T-flagged request is optional, answering it with other identifiers is not.",
     "Which requests must be answered is decided by the C06 reference model; fair schedule.",
     "model-based history testing with a positional request/answer oracle", "DESIGN.md#c07")
 
